@@ -21,6 +21,10 @@ class PhysGen:
         self.layout = rng.choice(layouts or LAYOUTS)
         self.spec = rng.choice(["1.0", "1.1"])
         self.ids = []
+        # a list of lists is a list of id families: one family per history, so that related ids (an object and ids
+        # that run through its inner directories) meet in one repository
+        if ids and isinstance(ids[0], (list, tuple)):
+            ids = list(rng.choice(ids))
         self.id_pool = ids
         self.hostile_roots = hostile_roots
         self.weights = weights or [30, 6, 10, 10, 8, 5, 2, 24, 3, 3]
